@@ -1634,3 +1634,107 @@ func runR72(c *Ctx) {
 		}
 	}
 }
+
+// ---- R73: the null flag of a string cell comes from the nilness of the source pointer ----
+
+func init() {
+	register(&Rule{ID: "R73", Name: "NULL-FLAG-SOURCE", Floor: 8,
+		Text: "at every call of strings.NewPointer(offset, len, isNull) the null flag is (a) the null flag of an existing cell (second result of stringAt/bytesAt, Pointer.IsNull()), or (b) the constant true under a dominating guard that the source *string is nil (or, in the CSV reader, that the field is empty and EmptyNull is set), or (c) the constant false - where the function has *string sources only under a dominating guard that the source pointer is not nil -, or (d) literally `ptr == nil` for the *string source. A flag computed from anything else (the length or nilness of a byte buffer) makes the empty string null or a null an empty string",
+		Run:  runR73})
+}
+
+func runR73(c *Ctx) {
+	p := c.P
+	isStrPtr := func(t types.Type) bool {
+		pt, ok := t.Underlying().(*types.Pointer)
+		if !ok {
+			return false
+		}
+		b, ok := pt.Elem().Underlying().(*types.Basic)
+		return ok && b.Kind() == types.String
+	}
+	nilTestOfStrPtr := func(v ssa.Value) (*ssa.BinOp, bool) {
+		b, ok := v.(*ssa.BinOp)
+		if !ok || b.Op != token.EQL && b.Op != token.NEQ {
+			return nil, false
+		}
+		if cst, ok := b.Y.(*ssa.Const); ok && cst.IsNil() && isStrPtr(b.X.Type()) {
+			return b, true
+		}
+		if cst, ok := b.X.(*ssa.Const); ok && cst.IsNil() && isStrPtr(b.Y.Type()) {
+			return b, true
+		}
+		return nil, false
+	}
+	for _, fn := range p.Funcs {
+		if fn.Pkg == nil || !inModule(fn.Pkg.Pkg) {
+			continue
+		}
+		hasPtrSource := false
+		for _, prm := range fn.Params {
+			t := prm.Type()
+			if sl, ok := t.Underlying().(*types.Slice); ok {
+				t = sl.Elem()
+			}
+			if isStrPtr(t) {
+				hasPtrSource = true
+			}
+		}
+		fnm := fname(fn)
+		eachInstr(fn, func(in ssa.Instruction) {
+			call, ok := in.(*ssa.Call)
+			if !ok || !isFuncNamed(calleeObj(call), rel("internal/strings"), "", "NewPointer") || len(call.Call.Args) != 3 {
+				return
+			}
+			flag := call.Call.Args[2]
+			key := fnm + "|null flag"
+			pos := p.instrPos(call)
+			guards := dominatingGuards(call.Block())
+			underNil, underNotNil, underEmptyNull := false, false, false
+			for _, g := range guards {
+				if b, ok := nilTestOfStrPtr(g.Cond); ok {
+					isNil := (b.Op == token.EQL) == g.Val
+					if isNil {
+						underNil = true
+					} else {
+						underNotNil = true
+					}
+				}
+				if fieldNameOfLoad(g.Cond) == "EmptyNull" && g.Val {
+					underEmptyNull = true
+				}
+			}
+			switch {
+			case isNullPredicate(flag):
+				c.ok(key, pos, "the null flag of an existing cell")
+			case isConstBool(flag, true):
+				if underNil || underEmptyNull {
+					c.ok(key, pos, "null under a guard that the source pointer is nil / the field is empty with EmptyNull")
+				} else {
+					c.bad(key, pos, "a cell is marked null without a dominating test that its source pointer is nil")
+				}
+			case isConstBool(flag, false):
+				if !hasPtrSource || underNotNil || hasEmptyNullElse(guards) {
+					c.ok(key, pos, "non-null: the source cannot be nil here")
+				} else {
+					c.bad(key, pos, "a cell is marked non-null although its *string source is not known to be non-nil at this point")
+				}
+			default:
+				if _, ok := nilTestOfStrPtr(flag); ok {
+					c.ok(key, pos, "the flag is the nil test of the source pointer")
+				} else {
+					c.bad(key, pos, fmt.Sprintf("the null flag is computed from %s, not from the nilness of the source pointer: an empty string becomes null (or a null an empty string)", describe(flag)))
+				}
+			}
+		})
+	}
+}
+
+func hasEmptyNullElse(guards []guard) bool {
+	for _, g := range guards {
+		if fieldNameOfLoad(g.Cond) == "EmptyNull" {
+			return true
+		}
+	}
+	return false
+}
